@@ -1017,6 +1017,9 @@ class APIConnection:
 
     async def disconnect(self) -> None:
         """Disconnect from the API."""
+        # Mark the disconnect as expected right away: the connection may be
+        # closed by something else while we wait below
+        self._expected_disconnect = True
         if self._finish_connect_future is not None:
             # Try to wait for the handshake to finish so we can send
             # a disconnect request. If it doesn't finish in time
